@@ -121,14 +121,174 @@ SOUP = ["+", "-", "*", "/", "\\", "..", "=", "!=", "<", ">", "<=", ">=", "->", "
         "forall", "exists", "$i", "$g", "$s", "#inf", "#sup", ":", "|", "%", "$", "#", "@", "'", "\"", "~", "&"]
 
 
+# tokens whose k-fold repetition (k = 3..6) probes the places where a grammar accepts a repetition
+# (`x*`, `x+`, `x{0,2}` relaxed to `x*`, ...) that the tree builder (`translate_pair`) does not expect
+REPEAT_WORDS = ["not", "forall", "exists", "and", "or", "input", "output", "assumption", "spec", "lemma", "definition", "inductive", "forward",
+                "backward", "universal", "integer", "general", "symbol"]
+REPEAT_SYMBOLS = ["-", "(", ")", "->", "<-", "<->", ":-", "..", "=", "!=", "<", ">", "<=", ">=", ",", ";", "{", "}", ".", "+", "*", "/", "\\", ":",
+                  "$i", "$g", "$s", "$", "#inf", "#sup", "#", "[", "]"]
+REPEATABLE = set(REPEAT_WORDS) | set(REPEAT_SYMBOLS)
+
+
+def is_word(t):
+    return t[:1].isalpha() or t[:1] == "_"
+
+
+def repeat_at(toks, i, k, sep, pair=False):
+    """the token list with token i (or token i together with the next non-space token) written k times"""
+    toks = list(toks)
+    unit = toks[i]
+    if pair:
+        j = i + 1
+        while j < len(toks) and toks[j].isspace():
+            j += 1
+        if j < len(toks):
+            unit = "".join(toks[i:j + 1])
+            for x in range(i + 1, j + 1):
+                toks[x] = ""
+    if is_word(unit) or unit[-1:].isalnum():
+        sep = sep or " "
+    toks[i] = sep.join([unit] * k)
+    return "".join(toks)
+
+
+def repeat_mutant(r, toks, idx):
+    """repeat one token (a keyword / operator / bracket of the text if it has one, else an inserted
+    one) k = 3..6 times; keywords and operators are preferred to punctuation"""
+    present = {}
+    for i in idx:
+        if toks[i] in REPEATABLE:
+            present.setdefault(toks[i], []).append(i)
+    k = r.choice([3, 3, 3, 4, 5, 6])
+    if present and r.random() < 0.85:
+        names = sorted(present)
+        t = r.choices(names, [1 if n in ",.()" else 3 for n in names])[0]
+        i = r.choice(present[t])
+    elif r.random() < 0.5:
+        i = r.choice(idx)                      # any token of the text (identifier, numeral, ...)
+    else:
+        i = r.choice(idx)
+        toks = toks[:i] + [r.choice(sorted(REPEATABLE)), " "] + toks[i:]
+    return repeat_at(toks, i, k, r.choice(["", " "]), pair=r.random() < 0.2)
+
+
+# valid texts of every node type (harness op `parse_any`); the in-process stream repeats every token
+# of every seed.  (A seed that does not parse as its node type is reported in the evidence notes.)
+NODE_SEEDS = {
+    "asp.PrecomputedTerm": ["#inf", "-5", "a", "#sup"],
+    "asp.Variable": ["X", "Xa1"],
+    "asp.UnaryOperator": ["-"],
+    "asp.BinaryOperator": ["+", "..", "\\"],
+    "asp.Term": ["-X+1", "(1..3)*a", "-(X)/2\\3"],
+    "asp.Predicate": ["p/2"],
+    "asp.Atom": ["p(X,1,a)", "p"],
+    "asp.Sign": ["", "not", "not not"],
+    "asp.Literal": ["not p(X)", "not not q"],
+    "asp.Relation": ["<=", "!="],
+    "asp.Comparison": ["X+1 != 2", "1..3 = X"],
+    "asp.AtomicFormula": ["not p(X)", "X < 2"],
+    "asp.Head": ["{p(X)}", "p(1)", "#false", ""],
+    "asp.Body": ["p(X), not q(X); X = 1..3"],
+    "asp.Rule": ["p(X) :- q(X), not not r(X), X != -1.", "{p} :- not q.", ":- p."],
+    "asp.Program": ["p(X) :- not q(X).\n{q(1..3)}.\n:- p(a), X < -2."],
+    "fol.UnaryOperator": ["-"],
+    "fol.BinaryOperator": ["+", "*"],
+    "fol.IntegerTerm": ["-X$i+1", "(n$i*2)-N$"],
+    "fol.SymbolicTerm": ["a", "X$s", "c$s"],
+    "fol.GeneralTerm": ["X", "X$g", "#inf", "c$g", "1+2"],
+    "fol.Predicate": ["p/2"],
+    "fol.Atom": ["p(X, 1+N$i, a)"],
+    "fol.Relation": ["<=", "="],
+    "fol.Guard": ["<= X$i+1", "!= a"],
+    "fol.Comparison": ["1 < X$i <= 3", "X = a"],
+    "fol.AtomicFormula": ["#true", "p(X)", "X != 1"],
+    "fol.UnaryConnective": ["not"],
+    "fol.Quantifier": ["forall", "exists"],
+    "fol.Quantification": ["forall X Y$i", "exists N$"],
+    "fol.Sort": ["integer", "g", "symbol"],
+    "fol.FunctionConstant": ["c$i", "a$g"],
+    "fol.Variable": ["X", "N$i", "S$s"],
+    "fol.BinaryConnective": ["<->", "and", "<-"],
+    "fol.Formula": ["forall X (p(X) and not q(X) -> exists Y$i (Y$i > X or Y$i = -1))", "p <-> q <- not not r"],
+    "fol.Theory": ["forall X (p(X) -> q(X)).\nexists N$i (N$i > 1 and not p(N$i))."],
+    "fol.Role": ["assumption", "inductive-lemma"],
+    "fol.Direction": ["forward"],
+    "fol.AnnotatedFormula": ["lemma(backward)[name]: forall X (p(X) -> not q(X))", "spec: p <-> q"],
+    "fol.Specification": ["assumption(forward): forall X (p(X) -> X > 1).\nspec: q(1)."],
+    "fol.PlaceholderDeclaration": ["input: n -> integer", "input: n"],
+    "fol.UserGuideEntry": ["input: p/1", "output: q/0", "input: n -> integer", "assumption: forall X (p(X) -> X > n$i)"],
+    "fol.UserGuide": ["input: p/1.\noutput: q/1.\ninput: n -> integer.\nassumption: forall X (p(X) -> X > n$i)."],
+}
+BROAD_KINDS = {"asp": ["asp.Program", "asp.Rule", "asp.Body", "asp.Literal", "asp.Term"],
+               "fol": ["fol.Theory", "fol.Specification", "fol.UserGuide", "fol.Formula", "fol.AnnotatedFormula", "fol.UserGuideEntry", "fol.GeneralTerm"]}
+
+
+def repeated_variants(text, ks=(3, 4, 6)):
+    """every token of `text` repeated k times (with and without separating blanks), and every token
+    together with its successor repeated 3 times"""
+    toks = TOK.findall(text)
+    out = []
+    for i, t in enumerate(toks):
+        if t.isspace():
+            continue
+        for k in ks:
+            for sep in ([" "] if is_word(t) else ["", " "]):
+                out.append(repeat_at(toks, i, k, sep))
+        out.append(repeat_at(toks, i, 3, " ", pair=True))
+    return out
+
+
+def node_type_stream(kinds):
+    """[(kind, text bytes)]: the seeds of every node type and their token-repetition variants, each
+    parsed as its own node type and as the broad node types of its language"""
+    out, seen = [], set()
+    for kind in kinds:
+        for seed in NODE_SEEDS.get(kind, []):
+            for text in [seed] + repeated_variants(seed):
+                for k in [kind] + BROAD_KINDS[kind.split(".")[0]]:
+                    if k in kinds and (k, text) not in seen:
+                        seen.add((k, text))
+                        out.append((k, text.encode()))
+    return out
+
+
+# whole-file texts for the CLI stream: every token of a small file of each type, repeated
+CLI_REPEAT_BASES = [
+    "p(X) :- q(X), not r(X), X = 1..3, X != -Y.\n{s(X+1)} :- not not t(X); X < 2.\n",
+    "forall X (p(X) and not q(X) -> exists Y$i (Y$i > X or Y$i = -1)).\np <-> q <- r.\n",
+    "assumption(forward): forall X (p(X) -> q(X)).\nspec[name]: exists N$i (q(N$i) and 1 < N$i <= 3).\n",
+    "input: p/1.\noutput: q/1.\ninput: n -> integer.\nassumption: forall X (p(X) -> X > n).\n",
+    "definition(universal): forall X (aux(X) <-> p(X)).\ninductive-lemma: forall N$i (N$i >= 0 -> q(N$i)).\nlemma(backward): not not q(1).\n",
+]
+
+
+def cli_repeat_corpus():
+    out, seen = [], set()
+    for base in CLI_REPEAT_BASES:
+        toks = TOK.findall(base)
+        first = {}
+        for i, t in enumerate(toks):
+            if not t.isspace() and t in REPEATABLE:
+                first.setdefault(t, i)
+        for t, i in first.items():
+            for k in ((3, 5) if is_word(t) else (3,)):
+                text = repeat_at(toks, i, k, " " if is_word(t) or t in ("-", "(") else "")
+                if text not in seen:
+                    seen.add(text)
+                    out.append(text)
+    return out
+
+
 def mutate(r, text):
     """one mutated variant of a text (str) -> bytes"""
     toks = TOK.findall(text)
-    kind = r.choices(["delete", "dup", "swap", "inflate", "inflate_in", "bigvar", "soup", "paren", "nest", "arity", "special", "bytes", "splice"],
-                     [10, 10, 10, 10, 16, 6, 8, 8, 8, 4, 5, 4, 3])[0]
+    kind = r.choices(["delete", "dup", "swap", "inflate", "inflate_in", "bigvar", "soup", "paren", "nest", "arity", "special", "bytes", "splice", "repeat"],
+                     [10, 10, 10, 10, 16, 6, 8, 8, 8, 4, 5, 4, 3, 14])[0]
     idx = [i for i, t in enumerate(toks) if not t.isspace()]
-    if kind in ("delete", "dup", "swap", "soup", "paren") and not idx:
+    if kind in ("delete", "dup", "swap", "soup", "paren", "repeat") and not idx:
         kind = "special"
+    if kind == "repeat":
+        return repeat_mutant(r, toks, idx).encode()[:4096]
     if kind == "delete":
         for _ in range(r.choice([1, 1, 2, 3])):
             if idx:
